@@ -241,12 +241,12 @@ def obligations(tier: str) -> List[dict]:
                 call=c, other=(c + 5) % NCALLS)
     else:
         for c in range(NCALLS):
-            add('h_pure', '(a,b,d) purity/repeatability/identity', 3000,
-                n=2, call=c)
-            add('h_setorder', '(c) set iteration order', 3000, n=2, width=4,
+            add('h_pure', '(a,b,d) purity/repeatability/identity', 1800,
+                ['ran'], n=2, call=c)
+            add('h_setorder', '(c) set iteration order', 1800, n=2, width=4,
                 call=c)
-            add('h_setorder', '(c) set iteration order', 3000, n=3, width=3,
-                call=c, i0_op=1)
+            add('h_setorder', '(c) set iteration order', 1800, n=3, width=3,
+                call=c, i0_op=1, i1_op=1)
     return obs
 
 
